@@ -19,7 +19,7 @@ VERIF = build.VERIF
 
 
 def load_known():
-    p = os.path.join(VERIF, 'known_findings.json')
+    p = os.environ.get('RSV_KNOWN_FINDINGS') or os.path.join(VERIF, 'known_findings.json')
     if not os.path.exists(p):
         return {'open': [], 'fixed': []}
     with open(p) as f:
